@@ -76,6 +76,12 @@ class StateVector(np.ndarray):
         super().__setstate__(state["basestate"])
         object.__setattr__(self, "_data", state["data"])
 
+    @property
+    def base(self):
+        # An unpickled array owns its memory and has no base array to refer to
+        base = super().base
+        return self.view(np.ndarray) if base is None else base
+
     def copy(self, *, frame=None, form=None, same=None):
         """Provide a new object of the same point in space-time. Optionally,
         allow for frame and form conversion
